@@ -7,6 +7,7 @@ import jsonpath
 from jsonpath.__about__ import __version__
 from jsonpath.exceptions import JSONPatchError
 from jsonpath.exceptions import JSONPathIndexError
+from jsonpath.exceptions import JSONPathNameError
 from jsonpath.exceptions import JSONPathSyntaxError
 from jsonpath.exceptions import JSONPathTypeError
 from jsonpath.exceptions import JSONPointerError
@@ -263,6 +264,11 @@ def handle_path_command(args: argparse.Namespace) -> None:  # noqa: PLR0912
         if args.debug:
             raise
         sys.stderr.write(f"json path index error: {err}\n")
+        sys.exit(1)
+    except JSONPathNameError as err:
+        if args.debug:
+            raise
+        sys.stderr.write(f"json path name error: {err}\n")
         sys.exit(1)
 
     try:
